@@ -10,8 +10,12 @@ RULE = ("ops: seeded random operator sequences (1..24 operators over every Op va
         "f32::MAX, random bit patterns; all 256 byte values as string content. api: random call scripts on GraphicsContext and on "
         "Page::text()/TextContext::write/begin_marked_content, the operator list read back through verif_ops(). raw: 113 fixed + "
         "seeded random byte strings (operator fragments incl. inline images, truncations, random bytes, delimiter runs, nested "
-        "property dictionaries) parsed under a wall-clock guard and compared with the parser model; 8 inputs of 1-2 MB (runs of "
-        "`) ; { }`, `(`, `<<`, `[`x3e5 inside BDC properties, random) parsed in a child process. "
+        "property dictionaries) parsed under a wall-clock guard and compared with the parser model; ~300 adversarial inputs of 75 KB-2 MB "
+        "(runs of every byte the tokenizer treats specially or skips - all delimiters, white space, NUL, DEL, high bytes, digits, signs, dot, "
+        "backslash, # - alone, separated by blank/LF/a regular byte, inside BDC property dictionaries and TJ arrays; alternating 2-3 byte "
+        "patterns such as <> >< << >> [] %LF >>> '> >'; 10^5-deep nesting of arrays/dictionaries/strings/BI/q/BT/BMC, unclosed and unopened; "
+        "very long operand lists and single tokens; random) parsed in a child process on a 512 KiB-stack thread, restarted after an abort; "
+        "only a digest and the outcome are recorded. "
         "non-trivial = at least 3 operators (ops/api), more than 6 bytes (raw); distinct by case text")
 
 KNOWN = {"f32-overflow": "C21-f32-overflow"}
